@@ -124,6 +124,7 @@ def run(tier):
             f = mount(dev, encoding=cp, preserve_case=pc)
             f.makedir("/D")
             created = []
+            stored_upper = []
             made = [0]
             sub = pool if (cpi == 0 and pc) or tier != "quick" else pool[::3]
             for nm in sub:
@@ -139,7 +140,7 @@ def run(tier):
                     already = f.exists(path)
                 except Exception as e:  # noqa
                     res.fail(["C15"], "names:exists-raises:" + exc_class(e), "exists(%r) raised %s" % (nm, exc_class(e)), rep)
-                if already and any(prev.upper() == nm for prev in created):
+                if already and any(prev.upper() == nm for prev in created + stored_upper):
                     # the 8.3 alias is FAT's second lookup key: an upper-case 8.3 name equal to the alias of an
                     # earlier (differently cased) name denotes that same entry — outside the property's name pools
                     res.count("alias-key-skipped")
@@ -189,6 +190,7 @@ def run(tier):
                         if not pc and nm != nm.upper():
                             res.fail(["C15"], "names:not-found-by-given-name:preserve_case=off:non-upper-name",
                                      "%r created (stored upper-cased) but not found by the name given" % nm, rep)
+                            stored_upper.append(nm)     # the entry exists, under the upper-cased name
                             continue
                         res.fail(["C15"], "names:not-found:%s" % classify(nm, cp), "%r not found after create" % nm, rep)
                 except Exception as e:  # noqa
